@@ -97,8 +97,9 @@ CLAIMS["C04"] = dict(
 CLAIMS["C05"] = dict(
    text="Machine-checked Lean 4 theorems about the same executable model of the event loop as C04: the 32 immediate queues with minq "
         "refine one stable priority queue (lowest priority number first, FIFO within a priority, re-registration from a callback goes "
-        "to the tail); the poll timeout is the ceiling in ms of the time to the nearest timer, recomputed from the remaining time after "
-        "EINTR (the F11 repair); and for EVERY program and environment the model's trace is accepted by the executable C05 monitor "
+        "to the tail); the poll timeout never exceeds the ceiling in ms of the time to the nearest timer deadline, equals it below the "
+        "saturation point of poll's int argument and is 0 exactly when the deadline has passed, also when recomputed from the remaining "
+        "time after EINTR (the F11 and F12 repairs); and for EVERY program and environment the model's trace is accepted by the executable C05 monitor "
         "(a pending immediate before any ready socket before any expired timer; timers in deadline order; a call that starts with "
         "something runnable runs a callback, otherwise blocks no longer than the earliest deadline and runs what woke it; the first "
         "non-zero status or an interrupt request stops dispatching and events not yet run stay registered), closed over the proved timer-queue contract. Tie: the monitor judges the real event loop's trace "
